@@ -11,6 +11,7 @@
 //	                     same <sha256 wat> <sha256 wasm> <wat bytes> <wasm bytes>
 //	                     DIFF <what: wat|wasm|status> <build index> <first differing line no> <hex line in build 0> <hex line in build i>
 //	                     err <kind>                  (every build failed the same way; kind: load | wat2wasm | panic)
+//	c27 members <K>    stdin: one "<path>" per line -> K real iteration orders of the main package's member map + WAT emission order
 //	c27 dump <kind> <path> <out-prefix> [virtual-name]   one build, writes <out-prefix>.wat / .wasm (for the report of a cross-process difference)
 //
 // A compile that calls logger.Fatal (os.Exit) kills the process; the check sees a short output and
@@ -28,6 +29,8 @@ import (
 
 	"wa-lang.org/wa/api"
 	"wa-lang.org/wa/internal/backends/compiler_wat"
+	"wa-lang.org/wa/internal/backends/compiler_wat/wir"
+	"wa-lang.org/wa/internal/ssa"
 	"wa-lang.org/wa/internal/wat/watutil"
 	"wa-lang.org/wa/internal/zz_verif/vh"
 )
@@ -112,7 +115,69 @@ func firstDiffByte(a, b []byte) int {
 	return len(b)
 }
 
+// members: the REAL iteration orders of the main package's ssa member map (k ranges over the Go map,
+// each in the order the runtime chose) and the order in which the compiler emitted the package's
+// plain functions into the WAT text.  Names are hex-encoded.
+//   out: "members <order1>|<order2>|... wat <hex names in emission order>"   (names within an order joined by ',')
+func members(path string, k int) string {
+	src, err := os.ReadFile(path)
+	if err != nil {
+		return "err read"
+	}
+	prog, err := api.LoadProgramFile(api.DefaultConfig(), filepath.Base(path), string(src))
+	if err != nil || prog == nil {
+		return "err load"
+	}
+	pkg := prog.SSAMainPkg
+	var orders []string
+	for i := 0; i < k; i++ {
+		var names []string
+		for name := range pkg.Members {
+			names = append(names, hex.EncodeToString([]byte(name)))
+		}
+		orders = append(orders, strings.Join(names, ","))
+	}
+	wat, err := compiler_wat.New().Compile(prog)
+	if err != nil {
+		return "err compile"
+	}
+	prefix, _ := wir.GetPkgMangleName(pkg.Pkg.Path())
+	isFn := map[string]bool{}
+	for name, m := range pkg.Members {
+		if _, ok := m.(*ssa.Function); ok {
+			isFn[name] = true
+		}
+	}
+	var emitted []string
+	for _, ln := range strings.Split(wat, "\n") {
+		if !strings.HasPrefix(ln, "(func $"+prefix+".") {
+			continue
+		}
+		rest := ln[len("(func $"+prefix+"."):]
+		if i := strings.IndexAny(rest, " ()"); i >= 0 {
+			rest = rest[:i]
+		}
+		if isFn[rest] {
+			emitted = append(emitted, hex.EncodeToString([]byte(rest)))
+		}
+	}
+	if len(emitted) == 0 {
+		return "err no-functions-found"
+	}
+	return "members " + strings.Join(orders, "|") + " wat " + strings.Join(emitted, ",")
+}
+
 func main() {
+	if len(os.Args) >= 3 && os.Args[1] == "members" {
+		k, _ := strconv.Atoi(os.Args[2])
+		vh.Loop(func(f []string, line string) string {
+			if len(f) < 1 {
+				return "bad-op"
+			}
+			return members(f[0], k)
+		})
+		return
+	}
 	if len(os.Args) >= 5 && os.Args[1] == "dump" {
 		vn := ""
 		if len(os.Args) > 5 {
